@@ -12,6 +12,10 @@ void scen_defer(void);
 void scen_wfcq(void);
 void scen_stacks(void);
 void scen_lfq(void);
+void scen_lfht_lin(void);
+void scen_lfht_unique(void);
+void scen_lfht_owner(void);
+void scen_lfht_resize(void);
 
 const struct usim_scenario usim_scenarios[] = {
 	{ "gp", "C01", scen_gp },
@@ -23,5 +27,9 @@ const struct usim_scenario usim_scenarios[] = {
 	{ "wfcq", "C10", scen_wfcq },
 	{ "stacks", "C11", scen_stacks },
 	{ "lfq", "C12", scen_lfq },
+	{ "lfht_lin", "C05", scen_lfht_lin },
+	{ "lfht_unique", "C06", scen_lfht_unique },
+	{ "lfht_owner", "C07", scen_lfht_owner },
+	{ "lfht_resize", "C09", scen_lfht_resize },
 };
 const int usim_nscenarios = sizeof(usim_scenarios) / sizeof(usim_scenarios[0]);
